@@ -29,6 +29,7 @@ import (
 	"path/filepath"
 	"sort"
 	"strings"
+	"sync"
 	"sync/atomic"
 	"testing"
 	"time"
@@ -384,6 +385,7 @@ type e9World struct {
 	AllTop  []int64      `json:"alltop"`
 	Default bool         `json:"default"` // the production tables DefaultTopASNs / DefaultCountryTopASNs
 	Files   []e9FileDesc `json:"files"`
+	Disk0   []int        `json:"disk0"` // world-local indices of the versions on disk at the start (A, C), 0 = none
 	Steps   []e9Step     `json:"steps"`
 }
 
@@ -771,7 +773,18 @@ func (x *e9Run) step(i int, s e9Step) {
 			return
 		}
 		x.release(s.R, "db")
-		x.collect(s.R, func(rf *e9Refresh) bool { return rf.ret })
+		// Refresh must now return; a critical section that follows is a visible intermediate state
+		mids := []any{}
+		for !rf.ret {
+			x.collect(s.R, func(rf *e9Refresh) bool { return rf.ret || len(rf.pending) > 0 })
+			for site := range rf.pending {
+				m, _ := x.obs(true)
+				m["at"] = site
+				mids = append(mids, m)
+				x.release(s.R, strings.TrimPrefix(site, "lock:"))
+			}
+		}
+		ev["mids"] = mids
 		ev["r"] = s.R
 		retFields(rf)
 		delete(x.refr, s.R)
@@ -836,7 +849,13 @@ func (x *e9Run) fileFor(d e9FileDesc) *e9File {
 		x.shared[k] = f
 		return f
 	}
-	return x.rg.add(d)
+	b, _ := json.Marshal(d)
+	if f, ok := x.shared[string(b)]; ok {
+		return f
+	}
+	f := x.rg.add(d)
+	x.shared[string(b)] = f
+	return f
 }
 
 func e9RunWorld(t testing.TB, rg *e9Reg, out *vhOut, shared map[string]*e9File, w *e9World, rng *rand.Rand) {
@@ -881,9 +900,16 @@ func e9RunWorld(t testing.TB, rg *e9Reg, out *vhOut, shared map[string]*e9File, 
 	x.f = NewFile(&FileConfig{Logger: slogutil.NewDiscardLogger(), CacheManager: agdcache.EmptyManager{},
 		ASNPath: filepath.Join(dir, "A.mmdb"), CountryPath: filepath.Join(dir, "C.mmdb"),
 		HostCacheCount: w.HostCap, IPCacheCount: w.IPCap, AllTopASNs: all, CountryTopASNs: tops})
+	disk := []int{0, 0}
+	for i, k := range []string{"A", "C"} {
+		if len(w.Disk0) == 2 && w.Disk0[i] > 0 {
+			x.put(k, x.vers[w.Disk0[i]-1])
+			disk[i] = x.vers[w.Disk0[i]-1].id
+		}
+	}
 	o0, _ := x.obs(true)
 	out.Emit(e9Event{"ev": "Reset", "world": w.ID, "src": w.Src, "hostcap": w.HostCap, "ipcap": w.IPCap, "tops": topsOut,
-		"alltop": allOut, "vers": ids, "obs": o0})
+		"alltop": allOut, "vers": ids, "disk": disk, "obs": o0})
 	n := 0
 	for _, s := range w.Steps {
 		switch s.A {
@@ -902,6 +928,8 @@ func e9RunWorld(t testing.TB, rg *e9Reg, out *vhOut, shared map[string]*e9File, 
 			n++
 		}
 	}
+	o1, _ := x.obs(true)
+	out.Emit(e9Event{"ev": "End", "chg": x.chg(), "obs": o1})
 	if len(x.refr) > 0 {
 		// let unfinished refreshes run out (not part of the trace)
 		e9G.free.Store(true)
@@ -911,17 +939,21 @@ func e9RunWorld(t testing.TB, rg *e9Reg, out *vhOut, shared map[string]*e9File, 
 			}
 		}
 		for _, rf := range x.refr {
-			if !rf.ret {
+			deadline := time.After(e9Wait)
+			for !rf.ret {
 				select {
+				case a := <-e9G.arr:
+					if a.release != nil {
+						close(a.release)
+					}
 				case <-rf.done:
-				case <-time.After(e9Wait):
+					rf.ret = true
+				case <-deadline:
 					t.Fatal("an unfinished refresh does not return")
 				}
 			}
 		}
 	}
-	o1, _ := x.obs(true)
-	out.Emit(e9Event{"ev": "End", "chg": x.chg(), "obs": o1})
 }
 
 // autoData: Data for addresses of the databases in force and their neighbours (the other end of the
@@ -961,11 +993,14 @@ func (x *e9Run) autoData(rng *rand.Rand, cnt int) (steps []e9Step) {
 			}
 		}
 	}
+	rng.Shuffle(len(pool), func(i, j int) { pool[i], pool[j] = pool[j], pool[i] })
+	// addresses no database knows, always asked
+	var special [][]int
 	for _, s := range []string{"0.0.0.0", "255.255.255.255", "::", "::1", "203.0.113.9", "2001:db8::1", "ff02::1", "::ffff:0.0.0.0",
 		"fe80::1"} {
-		add(e9IPBytes(net.IP(netip.MustParseAddr(s).AsSlice())))
+		special = append(special, e9IPBytes(net.IP(netip.MustParseAddr(s).AsSlice())))
 	}
-	rng.Shuffle(len(pool), func(i, j int) { pool[i], pool[j] = pool[j], pool[i] })
+	pool = append(special, pool...)
 	if cnt <= 0 || cnt > len(pool) {
 		cnt = len(pool)
 	}
@@ -1062,5 +1097,205 @@ func TestVerifEXT9Stepper(t *testing.T) {
 	shared := map[string]*e9File{}
 	for _, w := range in.Worlds {
 		e9RunWorld(t, rg, out, shared, w, rng)
+	}
+	// observation: a database with a record for 0.0.0.0 (the reader check of geoIPFromFile looks that address up)
+	dir := t.TempDir()
+	zero := e9WriteMMDB("A", []e9Net{{B: []int{0, 0, 0, 0}, N: 8, ASN: 7}, {B: []int{10, 0, 0, 0}, N: 8, ASN: 8}}, 9999)
+	ok := e9WriteMMDB("C", []e9Net{{B: []int{10, 0, 0, 0}, N: 8, Ctry: "US", Cont: "NA"}}, 9998)
+	os.WriteFile(filepath.Join(dir, "A.mmdb"), zero, 0o644)
+	os.WriteFile(filepath.Join(dir, "C.mmdb"), ok, 0o644)
+	f := NewFile(&FileConfig{Logger: slogutil.NewDiscardLogger(), CacheManager: agdcache.EmptyManager{},
+		ASNPath: filepath.Join(dir, "A.mmdb"), CountryPath: filepath.Join(dir, "C.mmdb"), HostCacheCount: 1, IPCacheCount: 1,
+		AllTopASNs: container.NewMapSet[ASN](), CountryTopASNs: map[Country]ASN{}})
+	perr := f.Refresh(context.Background())
+	out.Emit(e9Event{"ev": "Probe", "what": "a valid database with a record for 0.0.0.0/8", "err": fmt.Sprint(perr)})
+}
+
+// ---------------------------------------------------------------- concurrent readers
+
+// TestVerifEXT9Concurrent: readers call Data and SubnetByLocation while the main goroutine replaces the
+// files and refreshes (no gates).  Every recorded call carries the pairs of database versions that were
+// in force at some time between its start and its end; TLC judges each line.  Run with -race.
+func TestVerifEXT9Concurrent(t *testing.T) {
+	out := vhOpen(t)
+	var in e9Input
+	vhReadJSON(t, os.Getenv("VERIF_IN"), &in)
+	fout, err := os.Create(os.Getenv("VERIF_FILES"))
+	if err != nil {
+		t.Fatal(err)
+	}
+	defer fout.Close()
+	rg := &e9Reg{t: t, fout: fout, byKey: map[string]int{}}
+	rng := rand.New(rand.NewSource(vhSeed()))
+	nref, keep := vhEnvInt("VERIF_NREFRESH", 40), vhEnvInt("VERIF_KEEPREADS", 400)
+	for _, w := range in.Worlds {
+		x := &e9Run{t: t, rg: rg, w: w, out: out, ptrs: map[*Location]*e9Ptr{}, byID: map[int]*e9Ptr{}, refr: map[string]*e9Refresh{},
+			shared: map[string]*e9File{}}
+		dir, derr := os.MkdirTemp("", "ext9-conc-")
+		if derr != nil {
+			t.Fatal(derr)
+		}
+		x.dir = dir
+		var as, cs []*e9File
+		var ids []int
+		for _, d := range w.Files {
+			f := x.fileFor(d)
+			ids = append(ids, f.id)
+			if d.Kind == "A" {
+				as = append(as, f)
+			} else {
+				cs = append(cs, f)
+			}
+		}
+		tops, all := map[Country]ASN{}, container.NewMapSet[ASN]()
+		topsOut, allOut := [][]any{}, []int64{}
+		for _, p := range w.Tops {
+			c, a := p[0].(string), int64(p[1].(float64))
+			tops[Country(c)] = ASN(a)
+			topsOut = append(topsOut, []any{c, a})
+		}
+		for _, a := range w.AllTop {
+			all.Add(ASN(a))
+			allOut = append(allOut, a)
+		}
+		VerifHook = nil
+		x.f = NewFile(&FileConfig{Logger: slogutil.NewDiscardLogger(), CacheManager: agdcache.EmptyManager{},
+			ASNPath: filepath.Join(dir, "A.mmdb"), CountryPath: filepath.Join(dir, "C.mmdb"),
+			HostCacheCount: w.HostCap, IPCacheCount: w.IPCap, AllTopASNs: all, CountryTopASNs: tops})
+		o0, _ := x.obs(true)
+		out.Emit(e9Event{"ev": "Reset", "world": w.ID, "src": "concurrent", "hostcap": w.HostCap, "ipcap": w.IPCap, "tops": topsOut,
+			"alltop": allOut, "vers": ids, "disk": []int{0, 0}, "obs": o0})
+		// the loadable versions only take part in pairs
+		good := func(l []*e9File) (g []*e9File) {
+			for _, f := range l {
+				if f.ref != nil {
+					g = append(g, f)
+				}
+			}
+			return g
+		}
+		ga, gc := good(as), good(cs)
+		x.put("A", ga[0])
+		x.put("C", gc[0])
+		if rerr := x.f.Refresh(context.Background()); rerr != nil {
+			t.Fatal(rerr)
+		}
+		pairs := [][2]int{{ga[0].id, gc[0].id}} // pairs[k]: in force after k refreshes
+		var started, done atomic.Int64
+		var stop atomic.Bool
+		type read struct {
+			kind   string
+			ip     []int
+			host   string
+			got    e9Loc
+			err    string
+			l      e9Loc
+			fam    int
+			sn     e9Pfx
+			v0, v1 int64
+		}
+		var addrs [][]int
+		for _, s := range w.Steps {
+			if s.A == "Data" {
+				addrs = append(addrs, s.IP)
+			}
+		}
+		var locs []e9Step
+		for _, s := range w.Steps {
+			if s.A == "Subnet" {
+				locs = append(locs, s)
+			}
+		}
+		nreaders := 6
+		res := make([][]read, nreaders)
+		total := make([]int, nreaders)
+		var wg sync.WaitGroup
+		for ri := 0; ri < nreaders; ri++ {
+			wg.Add(1)
+			go func(ri int) {
+				defer wg.Done()
+				r := rand.New(rand.NewSource(vhSeed()*100 + int64(ri)))
+				for n := 0; !stop.Load(); n++ {
+					total[ri]++
+					if n%3 == 2 && len(locs) > 0 {
+						s := locs[r.Intn(len(locs))]
+						l := &Location{Country: Country(s.L.Ctry), TopSubdivision: s.L.Sub, ASN: ASN(s.L.ASN)}
+						fam := netutil.AddrFamilyIPv4
+						if s.Fam == 6 {
+							fam = netutil.AddrFamilyIPv6
+						}
+						v0 := done.Load()
+						sn, serr := x.f.SubnetByLocation(l, fam)
+						v1 := started.Load()
+						if len(res[ri]) < keep && (v1 > v0 || r.Intn(20) == 0) {
+							res[ri] = append(res[ri], read{kind: "CSubnet", l: s.L, fam: s.Fam, sn: e9PfxOf(sn), err: e9ErrClass(serr), v0: v0, v1: v1})
+						}
+						continue
+					}
+					ip := addrs[r.Intn(len(addrs))]
+					host := []string{"", "h1", "h2"}[r.Intn(3)]
+					v0 := done.Load()
+					l, derr := x.f.Data(host, e9Addr(ip, ""))
+					got := e9LocOf(l)
+					v1 := started.Load()
+					if len(res[ri]) < keep && (v1 > v0 || r.Intn(20) == 0) {
+						res[ri] = append(res[ri], read{kind: "CRead", ip: ip, host: host, got: got, err: e9ErrClass(derr), v0: v0, v1: v1})
+					}
+				}
+			}(ri)
+		}
+		outcomes := []string{}
+		for k := 1; k <= nref; k++ {
+			// an odd refresh changes BOTH databases to the next loadable versions (pairs are aligned: version i of
+			// one database is only ever in force with version i of the other); an even one finds one file unloadable
+			a, c := ga[(k/2+1)%len(ga)], gc[(k/2+1)%len(gc)]
+			if k%2 == 0 {
+				if rng.Intn(2) == 0 && len(as) > len(ga) {
+					a = as[len(as)-1]
+				} else if len(cs) > len(gc) {
+					c = cs[len(cs)-1]
+				}
+			}
+			x.put("A", a)
+			x.put("C", c)
+			started.Add(1)
+			rerr := x.f.Refresh(context.Background())
+			if rerr == nil {
+				pairs = append(pairs, [2]int{a.id, c.id})
+			} else {
+				pairs = append(pairs, pairs[len(pairs)-1])
+			}
+			outcomes = append(outcomes, e9ErrClass(rerr))
+			done.Add(1)
+			time.Sleep(time.Duration(200+rng.Intn(800)) * time.Microsecond)
+		}
+		stop.Store(true)
+		wg.Wait()
+		os.RemoveAll(dir)
+		sum := 0
+		for ri := range res {
+			sum += total[ri]
+			for _, rd := range res[ri] {
+				if rd.v1 >= int64(len(pairs)) {
+					rd.v1 = int64(len(pairs) - 1)
+				}
+				seen := map[[2]int]bool{}
+				ps := [][]int{}
+				for v := rd.v0; v <= rd.v1; v++ {
+					if !seen[pairs[v]] {
+						seen[pairs[v]] = true
+						ps = append(ps, []int{pairs[v][0], pairs[v][1]})
+					}
+				}
+				ev := e9Event{"ev": rd.kind, "pairs": ps, "v0": rd.v0, "v1": rd.v1, "err": rd.err, "reader": ri}
+				if rd.kind == "CRead" {
+					ev["ip"], ev["host"], ev["got"] = rd.ip, rd.host, rd.got
+				} else {
+					ev["l"], ev["fam"], ev["sn"] = rd.l, rd.fam, rd.sn
+				}
+				out.Emit(ev)
+			}
+		}
+		out.Emit(e9Event{"ev": "CEnd", "total": sum, "refreshes": nref, "outcomes": outcomes})
 	}
 }
